@@ -96,6 +96,7 @@ type c01Run struct {
 	upg    bool
 	gov      bool
 	faults   bool
+	abandoned bool
 	faultApps []*muxdrv.FaultApp
 	govStage int
 	govID    uint64
@@ -159,7 +160,8 @@ func (c *c01Run) configs() []muxdrv.ReplicaConfig {
 	cfgs := c.baseConfigs()
 	if c.upg {
 		for i := range cfgs {
-			cfgs[i].Upgrade = &muxdrv.UpgradeSpec{AtHeight: upgradeHeight(c.seed)}
+			// the migration raises MaxTxSize from 32768 to 40000 (an in-block consensus parameter change)
+			cfgs[i].Upgrade = &muxdrv.UpgradeSpec{AtHeight: upgradeHeight(c.seed), NewMaxTxSize: 40000}
 		}
 	}
 	if c.gov {
@@ -191,6 +193,14 @@ func (c *c01Run) baseConfigs() []muxdrv.ReplicaConfig {
 }
 
 func (c *c01Run) close() {
+	if c.abandoned {
+		for _, r := range c.reps {
+			if r != nil && strings.Contains(r.Cfg.DataDir, "muxdrv-") {
+				_ = os.RemoveAll(r.Cfg.DataDir)
+			}
+		}
+		return
+	}
 	for _, r := range c.reps {
 		if r != nil {
 			r.Close()
@@ -290,7 +300,19 @@ func (c *c01Run) run() *violation {
 		}
 	}
 	close(stop)
-	wg.Wait()
+	if anyBlocked.Load() {
+		// a replica never returned from a call: its goroutine holds the replica's locks, so neither
+		// the background load nor Close() can be waited for; the process exits after the summary.
+		c.abandoned = true
+		return viol
+	}
+	if berr := withDeadline("background load of history "+fmt.Sprint(c.seed), func() string { return "CheckTx/EstimateGas/query (a replica lock is held by a call that never returned)" }, wg.Wait); berr != nil {
+		c.abandoned = true
+		if viol == nil {
+			viol = c.fail(berr.Error(), 0, -1, nil, nil)
+		}
+		return viol
+	}
 	if viol == nil {
 		viol = c.compareDumps(0, "at the end of the history")
 	}
@@ -827,6 +849,20 @@ func (c *c01Run) block(b int) *violation {
 	if c.gov {
 		gens = append(gens, c.govStep(prop, &ss)...)
 	}
+	if c.upg && h == upgradeHeight(c.seed)+2 && len(ss) > 0 {
+		// a transaction whose outcome depends on the parameter the migration just changed: 33 kB,
+		// above the old MaxTxSize (32768) and below the new one (40000)
+		k := r.Intn(len(ss))
+		sd := ss[k]
+		ss = append(ss[:k], ss[k+1:]...)
+		var n uint64
+		if acc, err := prop.Account(0, sd.key.Address()); err == nil {
+			n = acc.General.Nonce
+		}
+		big := transaction.NewTransaction(n, muxdrv.Fee(50, 50_000), "verif.Nothing", bytes.Repeat([]byte{0x5a}, 33_000))
+		gens = append(gens, txGen{muxdrv.Sign(sd.key, big), "param-sensitive-33kB", "valid"})
+		c.sum.Count("upgrade_block", "parameter-sensitive tx in the next block, r3 restarted in between")
+	}
 	nFaultAdds := 0
 	if c.faults {
 		for j := 0; j < 1+r.Intn(3) && len(ss) > 0; j++ {
@@ -918,8 +954,16 @@ func (c *c01Run) block(b int) *violation {
 	in := c.chain.NewBlock(g.Validators[p].ConsAddr, votes, mis)
 
 	// restarts of the on-disk replicas (never the proposer before it proposes... it may, that is fine too)
+	// the block right after the one in which the upgrade migration changed the consensus
+	// parameters: one on-disk replica is restarted exactly here (it reloads the parameters from
+	// the committed state), the others keep running (they rely on the cache refreshed at commit)
+	afterMigration := c.upg && h == upgradeHeight(c.seed)+2
 	for i, rp := range c.reps {
-		if rp.Cfg.OnDisk && b > 0 && r.Chance(30) {
+		restartNow := r.Chance(30)
+		if afterMigration {
+			restartNow = i == 3
+		}
+		if rp.Cfg.OnDisk && b > 0 && restartNow {
 			ncfg := rp.Cfg
 			ncfg.MinGasPrice = uint64(r.Intn(3)) * 11
 			ncfg.PruneKeepN = uint64(1 + r.Intn(4))
@@ -957,7 +1001,11 @@ func (c *c01Run) block(b int) *violation {
 	if victim == p {
 		arm(p)
 		before := c.faultApps[p].Fired.Load()
-		failed, ferr := c.reps[p].Propose(in, cand)
+		var failed [][]byte
+		var ferr error
+		if berr := withDeadline("replica "+c.reps[p].Cfg.Name, c.reps[p].CurrentCall, func() { failed, ferr = c.reps[p].Propose(in, cand) }); berr != nil {
+			return c.fail(berr.Error(), h, p, desc, nil)
+		}
 		if ferr != nil {
 			return c.fail("PrepareProposal with an injected fault did not recover: "+ferr.Error(), h, p, desc, nil)
 		}
@@ -1071,7 +1119,11 @@ func (c *c01Run) block(b int) *violation {
 			// and arrives through BeginBlock..Commit, nothing else in between.
 			arm(i)
 			before := c.faultApps[i].Fired.Load()
-			accepted, perr := rp.ProcessProposal(in, list)
+			var accepted bool
+			var perr error
+			if berr := withDeadline("replica "+rp.Cfg.Name, rp.CurrentCall, func() { accepted, perr = rp.ProcessProposal(in, list) }); berr != nil {
+				return c.fail(berr.Error(), h, i, desc, nil)
+			}
 			if perr != nil {
 				return c.fail("ProcessProposal with an injected fault did not recover: "+perr.Error(), h, i, desc, nil)
 			}
@@ -1416,6 +1468,16 @@ func (c *c01Run) background(i int, stop chan struct{}, wg *sync.WaitGroup) {
 
 // ---------- entry point ----------
 
+func init() {
+	// C01_DEADLINE_MS overrides the per-operation watchdog budget (testing the watchdog itself)
+	if v := os.Getenv("C01_DEADLINE_MS"); v != "" {
+		var ms int
+		if _, err := fmt.Sscan(v, &ms); err == nil && ms > 0 {
+			callDeadline = time.Duration(ms) * time.Millisecond
+		}
+	}
+}
+
 func c01Main(seed uint64, out string, blocks, runs int, replay string, noBg bool, tieRuns, tieBlocks, procRuns, rtRuns, upgRuns, govRuns, faultRuns int) {
 	sum := coqout.NewSummary("one evaluation = one block executed by one replica and compared; distinct_nontrivial = number of distinct (history, height) blocks that carry at least one user transaction, evidence, a non-unanimous vote pattern or an epoch transition (each executed on 4 replicas/paths)")
 	w := coqout.NewWriter(out, c01Header, "run_case", "coutput_eqb", 60)
@@ -1479,13 +1541,19 @@ func c01Main(seed uint64, out string, blocks, runs int, replay string, noBg bool
 		sum.DistinctNontrivial += run.distinct
 		if v != nil {
 			sum.Violations = append(sum.Violations, v)
+			if anyBlocked.Load() {
+				sum.Count("watchdog", "blocked call reported")
+			}
 			fmt.Printf("VIOLATION-CANDIDATE seed=%d height=%d: %s\n", cs.Seed, v.Case.Height, v.What)
 			for _, d := range v.Detail {
 				fmt.Println("   ", d)
 			}
 		}
+		if anyBlocked.Load() {
+			break // goroutines of the blocked replica are still around: report and leave
+		}
 	}
-	if replay == "" && procRuns > 0 {
+	if replay == "" && procRuns > 0 && !anyBlocked.Load() {
 		debugFlagProbe(seed*1000+900, sum)
 	}
 	keys := make([]string, 0)
@@ -1496,4 +1564,7 @@ func c01Main(seed uint64, out string, blocks, runs int, replay string, noBg bool
 	w.Close()
 	sum.Write(out)
 	fmt.Printf("c01: %d replica-block executions, %d nontrivial blocks, %d correspondence cases, %d violations\n", sum.Evaluations, sum.DistinctNontrivial, w.Total, len(sum.Violations))
+	if anyBlocked.Load() {
+		os.Exit(0) // do not wait for the blocked goroutines
+	}
 }
